@@ -373,6 +373,28 @@ Example cg_final_residual_orth_initial_nonvacuous : LinOp 2 (@sp_mul AQ exq_s) /
 Proof. split; [exact exq_lin|]. split; [exact (sp_mul_SymOp AQ_RingLaws exq_s 2 exq_s_wf eq_refl eq_refl exq_s_sym)|].
   apply (@ok_k_witness SAQ). vm_compute. reflexivity. Qed.
 
+(* ANY field (no order, no law for sqrt), A symmetric, any tol: breakdown or termination.  A run that starts iteration i >= 2 without a panic has
+   divided by <r_{i-2}, r_{i-2}>; mutually orthogonal non-isotropic vectors are at most n (next theorem): whenever solve_cg returns at all with a
+   budget >= n+2 it returns Ok k, k <= n+1 (over R, tol >= 0: k <= n and no panic for SPD -- cg_terminates_spd_R below) *)
+Theorem cg_breakdown_or_terminates : forall (A : SArith), FieldLaws (SA A) ->
+  forall n (mulA : list (T (SA A)) -> res (list (T (SA A)))), LinOp n mulA -> SymOp n mulA ->
+  forall cols (b x0 : list (T (SA A))) max tol res x g,
+  n + 2 <= max ->
+  solve_cg mulA n cols b x0 max tol = Ok (res, x, g) ->
+  exists k, res = IOk k /\ k <= n + 1.
+Proof. intros A FL n mulA LO SYM cols b x0 max tol res x g. exact (cg_breakdown_or_terminates FL n mulA LO SYM cols b x0 max tol res x g). Qed.
+Check cg_breakdown_or_terminates : forall (A : SArith), FieldLaws (SA A) ->
+  forall n (mulA : list (T (SA A)) -> res (list (T (SA A)))), LinOp n mulA -> SymOp n mulA ->
+  forall cols (b x0 : list (T (SA A))) max tol res x g,
+  n + 2 <= max ->
+  solve_cg mulA n cols b x0 max tol = Ok (res, x, g) ->
+  exists k, res = IOk k /\ k <= n + 1.
+Print Assumptions cg_breakdown_or_terminates.
+Example cg_breakdown_or_terminates_nonvacuous : LinOp 2 (@sp_mul AQ exq_s) /\ SymOp 2 (@sp_mul AQ exq_s) /\
+  exists x g, @solve_cg SAQ (@sp_mul AQ exq_s) 2 2 [q 1 1; q 2 1] [q 2 1; q 1 1] 10 (q 1 1000) = Ok (IOk 2, x, g).
+Proof. split; [exact exq_lin|]. split; [exact (sp_mul_SymOp AQ_RingLaws exq_s 2 exq_s_wf eq_refl eq_refl exq_s_sym)|].
+  apply (@ok_k_witness SAQ). vm_compute. reflexivity. Qed.
+
 (* the dimension argument, any field: pairwise orthogonal vectors of F^n none of which is isotropic are at most n *)
 Theorem orthogonal_family_bound : forall (A : SArith), FieldLaws (SA A) -> forall n (vs : list (list (T (SA A)))),
   Forall (fun v => length v = n) vs -> ForallOrdPairs (fun u v => dot_raw u v = zero) vs ->
